@@ -108,8 +108,10 @@ class Source:
         self.text = text
         self.msk = mask(text)
 
+    line_base = 0
+
     def line_of(self, off):
-        return self.text.count('\n', 0, off) + 1
+        return self.text.count('\n', 0, off) + 1 + self.line_base
 
     # ---- item search -------------------------------------------------------------------------
     def _items(self, lo, hi):
